@@ -61,6 +61,7 @@ type c08Db struct {
 	nMulti   int            // deliveries to them
 	multiPer map[string]int // "store/C" -> number of those registrations on the store that name the change
 	reruns   int            // times bbolt ran a transaction function again after it had succeeded
+	tagsOn   bool           // the recorders check the tags of the entities they are handed (store_c08_caller.go)
 }
 
 func (c *c08Db) signal() {
@@ -109,6 +110,13 @@ func c08EntId(e *gEnt) string {
 	return hxs(e.Id)
 }
 
+func c08EntIdRaw(e *gEnt) string {
+	if e == nil {
+		return ""
+	}
+	return e.Id
+}
+
 func c08AsGEnt(x boltz.Entity) *gEnt {
 	if x == nil {
 		return nil
@@ -137,6 +145,7 @@ type c08Typed struct {
 }
 
 func (l *c08Typed) HandleEntityEvent(e *gEnt) {
+	l.c.tagCheck(l.prefix[3:5], l.store, l.prefix[len(l.prefix)-1:], c08EntIdRaw(e), e)
 	l.c.record(l.async, fmt.Sprintf("%s:%s:%s", l.prefix, c08EntId(e), l.c.digest(l.store, e)))
 }
 
@@ -156,6 +165,7 @@ func (k *c08Constraint) ProcessPostCommit(state *boltz.EntityChangeState[*gEnt])
 	k.c.mu.Lock()
 	k.c.evCount[k.store+"/"+ch]++
 	k.c.mu.Unlock()
+	k.c.tagCheck("c", k.store, ch, state.EntityId, e)
 	k.c.record(false, fmt.Sprintf("LS:c:%s:%s:%s:%s:p%s", k.store, ch, hxs(state.EntityId), k.c.digest(k.store, e), b01(state.ParentEvent)))
 }
 
@@ -172,6 +182,7 @@ func (k *c08UntypedConstraint) ProcessPostCommit(state boltz.UntypedEntityChange
 	if ch == "D" {
 		e = c08AsGEnt(state.GetInitialState())
 	}
+	k.c.tagCheck("uc", k.store, ch, state.GetEntityId(), e)
 	k.c.record(false, fmt.Sprintf("LS:uc:%s:%s:%s:%s:p%s", k.store, ch, hxs(state.GetEntityId()), k.c.digest(k.store, e), b01(state.IsParentEvent())))
 }
 
@@ -189,7 +200,11 @@ func openC08Db(w *wiring, dir string, regs []c08Reg) (*c08Db, error) {
 	if err != nil {
 		return nil, err
 	}
-	return c08AttachDb(h, regs)
+	c, err := c08AttachDb(h, regs)
+	if c != nil {
+		c.tagsOn = true // every struct the C08 executor builds carries the tags {"id": <id>} (store_c08_caller.go)
+	}
+	return c, err
 }
 
 // c08AttachDb registers the recording listeners of every style, the constraints and the tx-complete listener on an
@@ -207,16 +222,19 @@ func c08AttachDb(h *harnessDb, regs []c08Reg) (*c08Db, error) {
 					et, al = ch.async, "a"
 				}
 				async := async
+				ch := ch
 				tp := fmt.Sprintf("LS:t%s:%s:%s", al, store, ch.letter)
 				fp := fmt.Sprintf("LS:f%s:%s:%s", al, store, ch.letter)
 				up := fmt.Sprintf("LS:u%s:%s:%s", al, store, ch.letter)
 				ip := fmt.Sprintf("LS:i%s:%s:%s", al, store, ch.letter)
 				gs.AddEntityEventListener(&c08Typed{c: c, prefix: tp, store: store, async: async}, et)
 				gs.AddEntityEventListenerF(func(e *gEnt) {
+					c.tagCheck("f"+al, store, ch.letter, c08EntIdRaw(e), e)
 					c.record(async, fmt.Sprintf("%s:%s:%s", fp, c08EntId(e), c.digest(store, e)))
 				}, et)
 				gs.AddListener(func(e boltz.Entity) {
 					g := c08AsGEnt(e)
+					c.tagCheck("u"+al, store, ch.letter, c08EntIdRaw(g), g)
 					c.record(async, fmt.Sprintf("%s:%s:%s", up, c08EntId(g), c.digest(store, g)))
 				}, et)
 				gs.AddEntityIdListener(func(id string) {
@@ -371,6 +389,9 @@ type c08Exec struct {
 	// third strengthening (store_c08_w3.go)
 	dead    int  // > 0: registrations go to a context built AROUND an existing transaction - nobody runs its pre-commit actions
 	regWrap bool // registrations are made through ctx.GetSystemContext() instead of ctx itself
+
+	// sixth strengthening (store_c08_caller.go): what the caller does with the structs it passes (pseudo veto @caller)
+	caller *c08CallerState
 }
 
 func (x *c08Exec) commitAction(label string) func() {
@@ -430,7 +451,7 @@ func (x *c08Exec) op(ctx boltz.MutateContext) (err error, done bool) {
 	h.mu.Lock()
 	raisedBefore := h.raised
 	h.mu.Unlock()
-	e := h.execOp(ctx, &x.t.Ops[i])
+	e := x.execOp(ctx, &x.t.Ops[i]) // the caller's structs: store_c08_caller.go
 	if e != nil && x.mode == "swl" {
 		// a caller that handles the veto of an entity constraint and carries on
 		h.mu.Lock()
@@ -547,6 +568,8 @@ func (c *c08Db) runTx(t *hTx, mode, prog string) *c08Seg {
 			c.mu.Unlock()
 		}
 		x.results, x.opIdx, x.bodyDone = nil, 0, false
+		x.caller = c08NewCaller(t)
+		defer x.callerEnd() // a caller that changes its structs at the end of the function
 		x.nC, x.nP, x.regC, x.regP = preC, preP, x.regC[:preRegC], x.regP[:preRegP]
 		c.mu.Lock()
 		c.paRuns = map[string]int{}
@@ -792,6 +815,7 @@ func runC08(o *opts) error {
 			if _, ok := c08PseudoVeto(&t, "@ctx"); ok {
 				stats["tx_shared_ctx"]++
 			}
+			c08CallerStats(stats, &t)
 			if _, ok := c08PseudoVeto(&t, c08CoBatch); ok {
 				stats["tx_coalesced_batch"]++
 			}
@@ -857,6 +881,11 @@ func runC08(o *opts) error {
 		w.derive()
 		g := newC08Gen(r, w)
 		nTx := 2 + r.intn(5)
+		// in 45% of the histories most callers reuse / change their entity structs, elsewhere a few do
+		callerPct := 6
+		if mode != "swl" && r.chance(45) {
+			callerPct = 70
+		}
 		var regs []c08Reg
 		var kind c08History
 		if mode != "swl" {
@@ -874,6 +903,9 @@ func runC08(o *opts) error {
 					g.addVeto(t)
 				}
 				return t, g.genProg(t, mode)
+			}
+			if r.chance(callerPct) {
+				g.callerShape(t) // a caller that reuses / changes the structs it passes (store_c08_caller.go)
 			}
 			return t, g.shape(t, mode, kind)
 		}, mode, tmp)
